@@ -618,6 +618,11 @@ def evaluate(plan, H):
         if p is None or 'status' not in p:
             viol('malformed-response', '%s: %r' % (ctx, raw[:300]))
             continue
+        if first.upper().startswith(b'HEAD ') and not p.get('body'):
+            # the response to HEAD has no body; its Content-Length
+            # describes the entity that GET would have returned
+            p['problems'] = [x for x in p['problems']
+                             if x != 'content-length-mismatch']
         if p['problems']:
             sig = 'header-crlf' if 'bare-crlf-in-header' in p['problems'] \
                 else 'malformed-response/' + p['problems'][0]
